@@ -85,6 +85,13 @@ let a_pair f g = function P (a, b) -> (f a, g b) | _ -> failwith "pair expected"
 let a_byname = function
   | A "n" -> true | A "l" -> false | _ -> failwith "n|l expected"
 
+(* roots container: none | [u,...] | [k:u,...] *)
+let a_roots = function
+  | A "none" -> RNone
+  | L (P _ :: _ as l) -> RDict (List.map (a_pair a_nat a_z) l)
+  | L l -> RList (List.map a_z l)
+  | _ -> failwith "roots expected"
+
 (* ---- printing ---- *)
 let rec show_value = function
   | VZ z -> string_of_int (int_of_z z)
@@ -142,6 +149,10 @@ let rec parse_op2 name (args : arg list) : op2 =
   | "len", [] -> OLen
   | "contains", [u] -> OContains (a_z u)
   | "shutdown", [] -> OShutdown
+  | "dump", [f; r; o; vo] -> ODump (a_nat f, a_roots r, a_list a_pos o, a_list a_nat vo)
+  | "load", [f; lv] -> OLoad (a_nat f, a_bool lv)
+  | "dump_manager", [f; vo] -> ODumpManager (a_nat f, a_list a_nat vo)
+  | "load_manager", [f] -> OLoadManager (a_nat f)
   | "to_nx", [r] -> OToNx (a_list a_z r)
   | "to_dot", [r] -> OToDot (a_opt (a_list a_z) r)
   | _ -> O1 (parse_op name args)
@@ -245,7 +256,7 @@ let show_adigest (d, hs) =
   show_digest d ^ " handles=" ^ show_dict (fun (h, u) -> Printf.sprintf "%d:%d" h u) hs
 
 let () =
-  let world = Stdlib.ref world_empty in
+  let world = Stdlib.ref world2_empty in
   let aworld = Stdlib.ref aworld_empty in
   let full = Stdlib.ref true in
   (try
@@ -256,7 +267,7 @@ let () =
        match toks with
        | [] -> ()
        | "#" :: _ -> ()
-       | ["!reset"] -> world := world_empty; aworld := aworld_empty
+       | ["!reset"] -> world := world2_empty; aworld := aworld_empty
        | ["!mode"; "full"] -> full := true
        | ["!mode"; "result"] -> full := false
        | ["!digest"; m] when String.length m > 1 && m.[0] = 'a' ->
@@ -264,7 +275,7 @@ let () =
            print_endline ("digest\t" ^ show_adigest (adigest (aworld_get !aworld m)))
        | ["!digest"; m] ->
            let m = nat_of_int (int_of_string m) in
-           print_endline ("digest\t" ^ show_digest (digest (world_get !world m)))
+           print_endline ("digest\t" ^ show_digest (digest (world2_get !world m)))
        | m :: name :: args when String.length m > 1 && m.[0] = 'a' ->
            let m = nat_of_int (int_of_string (String.sub m 1 (String.length m - 1))) in
            let o = parse_aop name (List.map parse_arg args) in
@@ -301,7 +312,7 @@ let () =
              | _ -> r in
            world := w';
            if !full then
-             print_endline (show_res r ^ "\t" ^ show_digest (digest (world_get w' m)))
+             print_endline (show_res r ^ "\t" ^ show_digest (digest (world2_get w' m)))
            else print_endline (show_res r)
        | _ -> failwith ("bad line: " ^ line)
      done
